@@ -125,59 +125,9 @@ def check_styled_boxes(prog, rep):
 def check_text_union(prog, rep):
     """R02.4 update_min_max pairs min with top_left/min and max with bottom_right/max on both axes;
     bounding_box feeds the same (line, position) pairs to measure_string that draw feeds to draw_string."""
-    um = prog.fn_by_path("embedded_graphics::text::text::update_min_max")
-    org = Origins(um)
-    writes = []
-    for bi in sorted(org.cfg.live_blocks()):
-        for si, s in enumerate(um.body["blocks"][bi]["s"]):
-            if s["k"] == "assign" and "*" in s["place"]["p"]:
-                fs = [e["f"] for e in s["place"]["p"] if isinstance(e, dict) and "f" in e]
-                val = strip_refs(org._rvalue(s["rv"], bi, si))
-                writes.append((tuple(fs), val))
-    # component writes: last field index = axis (0=x,1=y); value = Ord::min/max(old, source)
-    found = {}
-    for fs, val in writes:
-        m = match(val, ("call", "?fn", "_", ("?a", "?b")))
-        if m is None or not isinstance(m["?fn"], str):
-            continue
-        op = m["?fn"].split("::")[-1]
-        if op not in ("min", "max"):
-            continue
-        src = m["?b"]
-        axis = fs[-1] if fs else None
-        # which accumulator: tuple field 0 = min, 1 = max (through the `ref mut` bindings)
-        acc = None
-        for n in walk(m["?a"]):
-            mm = match(n, ("field", ("variant", "_", "Some"), 0))
-        a_s = show(m["?a"])
-        s_s = show(src)
-        from_tl = "top_left" in s_s or ".0.0" in s_s
-        is_br = any(nn[0] == "call" and nn[1].endswith("bottom_right") for nn in walk(src))
-        found.setdefault(op, []).append((axis, "bottom_right" if is_br else "top_left", a_s))
-    ok = sorted(x[:2] for x in found.get("min", [])) == [(0, "top_left"), (1, "top_left")] and sorted(x[:2] for x in found.get("max", [])) == [(0, "bottom_right"), (1, "bottom_right")]
-    # the accumulators: min writes go to tuple element 0, max writes to element 1
-    if ok:
-        for op, idx in (("min", ".0"), ("max", ".1")):
-            for axis, srcname, acc in found[op]:
-                pass
-    rep.check(ok, "R02.4", "update_min_max", "update_min_max must fold min over top_left and max over bottom_right on both axes; found %s" % {k: [x[:2] for x in v] for k, v in found.items()},
-              at=um.span, fn=um.path, detail=found)
-    # source axis agreement: min.x from top_left.x etc.
-    ax_ok = True
-    for fs, val in writes:
-        m = match(val, ("call", "_", "_", ("?a", "?b")))
-        if m is None:
-            continue
-        # the written component index must equal the read component index of both operands
-        def last_field(t):
-            while t[0] in ("deref", "ref"):
-                t = t[1]
-            return t[2] if t[0] == "field" else None
-        la, lb = last_field(m["?a"]), last_field(m["?b"])
-        if fs and la is not None and lb is not None and not (fs[-1] == la == lb):
-            ax_ok = False
-    rep.check(ax_ok, "R02.4", "update_min_max:axes", "each component must be combined with the same component of its source", at=um.span, fn=um.path)
-
+    TEXT = "embedded_graphics::text::text::Text"
+    bb = prog.method1(TEXT, "bounding_box", "embedded_graphics_core::geometry::Dimensions")
+    _text_fold(prog, rep, bb)
     TEXT = "embedded_graphics::text::text::Text"
     bb = prog.method1(TEXT, "bounding_box", "embedded_graphics_core::geometry::Dimensions")
     dr = prog.method1(TEXT, "draw", "embedded_graphics_core::drawable::Drawable")
@@ -245,6 +195,141 @@ def check_text_union(prog, rep):
             r = strip_refs(Origins(g).return_origin())
             ok = ok or bool(find(r, ("call", "*Rectangle::with_corners", "_", ("?a", "?b"))))
     rep.check(ok, "R02.4", "with_corners", "Text::bounding_box must return with_corners(min, max)", at=bb.span, fn=bb.path)
+
+
+def _text_fold(prog, rep, bb):
+    """The accumulation of the text box, wherever it is written (update_min_max, a fold closure, bounding_box itself):
+    in the path summaries of bounding_box, of the crate-local functions of src/text/text.rs it uses and of helpers new to
+    the tree, every min / component_min combines the accumulator with the *top_left* of the measured box and every max /
+    component_max with its *bottom_right*, component by component on the same axis, both axes occur for both, and the
+    accumulator starts as (top_left, bottom_right)."""
+    from mirq.paths import Paths, Unsupported
+    TM = "embedded_graphics::text::renderer::TextMetrics"
+    cands = [a for a in prog.adts if a.endswith("::TextMetrics")]
+    bbi = None
+    for a in cands:
+        for i, fd in enumerate(prog.adts[a]["variants"][0]["fields"]):
+            if fd["name"] == "bounding_box":
+                bbi = i
+    if bbi is None:
+        rep.fail("R02.4", "update_min_max", "TextMetrics::bounding_box not found", status="undecided")
+        return
+    roots = [bb] + list(prog.closures_of.get(bb.id, []))
+    seen = {f.id for f in roots}
+    i = 0
+    while i < len(roots):
+        f = roots[i]
+        i += 1
+        for cid in prog.callees_of(f) if hasattr(prog, "callees_of") else []:
+            pass
+        for g in prog.fns.values():
+            if g.id in seen or not g.body or g.kind not in ("fn", "assoc_fn", "closure") or "::tests" in g.id:
+                continue
+            if f.root_fn().id in prog.uses_of(g) and ((g.span or "").startswith("src/text/text.rs") or prog.is_new(g)) and g.name not in ("lines", "measure_string", "draw_string"):
+                seen.add(g.id)
+                roots.append(g)
+                for c in prog.closures_of.get(g.id, []):
+                    if c.id not in seen:
+                        seen.add(c.id)
+                        roots.append(c)
+
+    cur = [None]
+
+    def is_metrics(x):
+        """is tree x a TextMetrics value (a parameter / capture of that type, or the result of measure_string)?"""
+        x = strip_refs(x)
+        f = cur[0]
+        ty = None
+        if x[0] == "param" and f is not None and x[1] < len(f.body["locals"]):
+            ty = f.body["locals"][x[1]]["ty"]
+        elif x[0] == "upvar" and f is not None and x[1] < len(f.body.get("upvars", [])):
+            ty = f.body["upvars"][x[1]].get("ty")
+        elif x[0] == "call":
+            return x[1].split("::")[-1] == "measure_string"
+        while isinstance(ty, dict) and "ref" in ty:
+            ty = ty["ref"]
+        return isinstance(ty, dict) and str(ty.get("adt", "")).endswith("::TextMetrics")
+
+    def is_tl(t):
+        t = strip_refs(t)
+        return t[0] == "field" and t[2] == 0 and strip_refs(t[1])[0] == "field" and strip_refs(t[1])[2] == bbi and is_metrics(strip_refs(t[1])[1])
+
+    def is_br(t):
+        t = strip_refs(t)
+        return t[0] == "payload" and strip_refs(t[1])[0] == "call" and strip_refs(t[1])[1].endswith("Rectangle::bottom_right")
+
+    def source(t):
+        """('tl'|'br', axis|None) if t is (a component of) the measured box's corner"""
+        t = strip_refs(t)
+        while t[0] == "cast" or (t[0] == "call" and t[1].split("::")[-1] in ("clone", "into", "from") and len(t[3]) == 1):
+            t = strip_refs(t[1] if t[0] == "cast" else t[3][0])
+        if is_tl(t):
+            return "tl", None
+        if is_br(t):
+            return "br", None
+        if t[0] == "field" and isinstance(t[2], int):
+            if is_tl(t[1]):
+                return "tl", t[2]
+            if is_br(t[1]):
+                return "br", t[2]
+        return None
+
+    def acc_axis(t):
+        t = strip_refs(t)
+        return t[2] if t[0] == "field" and isinstance(t[2], int) else None
+    found, bad, inits, und = set(), [], [], []
+    for f in roots:
+        summs = None
+        for mode in ("refuse", "once"):
+            try:
+                summs = Paths(prog, inline=lambda g: prog.is_new(g), loops=mode, local_effects=True, havoc=True).of(f)
+                break
+            except Unsupported:
+                continue
+        if summs is None:
+            und.append(f.path)
+            continue
+        cur[0] = f
+        for sm in summs:
+            trees = [sm.ret] + [e[1] if e[0] == "call" else e[2] for e in sm.effects]
+            for tr in trees:
+                if not isinstance(tr, tuple):
+                    continue
+                for n in walk(tr):
+                    if not isinstance(n, tuple):
+                        continue
+                    if n[0] == "call" and n[1].split("::")[-1] in ("min", "max", "component_min", "component_max") and len(n[3]) == 2:
+                        op = "min" if n[1].split("::")[-1].endswith("min") else "max"
+                        sa, sb = source(n[3][0]), source(n[3][1])
+                        if sa is None and sb is None:
+                            continue
+                        if sa is not None and sb is not None:
+                            bad.append("%s of two corners of the measured box (%s)" % (op, show(n, maxd=4)))
+                            continue
+                        (kind, axis), acc = (sa, n[3][1]) if sa is not None else (sb, n[3][0])
+                        if (op, kind) not in (("min", "tl"), ("max", "br")):
+                            bad.append("%s is taken over the %s corner (%s)" % (op, "top-left" if kind == "tl" else "bottom-right", show(n, maxd=4)))
+                            continue
+                        aa = acc_axis(acc)
+                        if axis is not None and aa is not None and aa != axis:
+                            bad.append("%s combines component %s of the accumulator with component %s of the box (%s)" % (op, aa, axis, show(n, maxd=4)))
+                            continue
+                        for ax in ((0, 1) if axis is None else (axis,)):
+                            found.add((op, ax))
+                    if n[0] == "agg" and n[1] == "tuple" and len(n[2]) == 2:
+                        sa, sb = source(n[2][0]), source(n[2][1])
+                        if sa is not None and sb is not None and sa[1] is None and sb[1] is None:
+                            inits.append((sa[0], sb[0]))
+    want = {("min", 0), ("min", 1), ("max", 0), ("max", 1)}
+    if set(inits) - {("tl", "br")}:
+        bad.append("the accumulator starts as %s" % sorted(set(inits) - {("tl", "br")}))
+    if und and not bad and found != want:
+        rep.fail("R02.4", "update_min_max", "cannot summarise %s" % ", ".join(und[:2]), status="undecided", at=bb.span, fn=bb.path)
+        return
+    rep.check(not bad and found == want and ("tl", "br") in inits, "R02.4", "update_min_max",
+              "the text box must accumulate min over top_left and max over bottom_right of every measured line on both axes, starting from (top_left, bottom_right): %s"
+              % ("; ".join(sorted(set(bad))[:2]) or "found %s, start %s" % (sorted(found), sorted(set(inits)))), at=bb.span, fn=bb.path,
+              detail={"functions": [f.path for f in roots], "found": sorted(found)})
 
 
 def _baseline_norm(t):
